@@ -34,11 +34,8 @@ def c02_labels(run, v1, ed):
     pr = []
     v0 = run["view0"]
     kinds0 = run["label_kinds0"]
-    tgt = run["target"]
-    t0, tsize = run["target_offset"], run["target_size0"]
-    proxy_delete = any(e[0] == "delproxy" for e in run["edits"])
     for name, p in v0["labels"].items():
-        if not isinstance(p, int):
+        if not isinstance(p, int) or name not in run["label_block0"]:
             continue
         got = v1["labels"].get(name)
         if got is None:
@@ -47,26 +44,24 @@ def c02_labels(run, v1, ed):
         if got in ("dangling", "dangling-proxy", "none"):
             pr.append(("C02/no-dangling-referent", "%s -> %s" % (name, got)))
             continue
-        if proxy_delete and ((kinds0[name] == "start" and p == t0) or (kinds0[name] == "end" and p == t0 + tsize)) and name in run["target_labels"]:
+        bidx = run["label_block0"][name]
+        if bidx in run["proxy_deleted"]:
             if got != "proxy":
                 pr.append(("C02/retarget_to_proxy-makes-labels-external", "%s at %s" % (name, got)))
             continue
-        # code inserted at offset 0 of a block goes AFTER the block's start labels; everything inserted at the end of the
-        # target block precedes whatever belongs to the following block (its start labels included)
-        want = ed.lo(p) if (kinds0[name] == "start" and name in run["target_labels"]) else ed.hi(p)
+        want = ed.label_pos(p, kinds0[name], bidx)
         if got != want:
-            pr.append(("C02/label-designates-the-same-listing-position", "%s (%s label, was %d) at %s expected %d" % (name, kinds0[name], p, got, want)))
+            pr.append(("C02/label-designates-the-same-listing-position", "%s (%s label of block %d, was %d) at %s expected %d" % (name, kinds0[name], bidx, p, got, want)))
     # labels defined by patches
     same_pos_before = collections.Counter()
-    for (pos, l, pb, pn, i) in ed.mods:
+    for (pos, l, pb, pn, i, t) in ed.mods:
         if pn is not None:
             for lab, off in PATCHES[pn][1].items():
                 want = ed.out_before(pos) + same_pos_before[pos] + off
                 got = v1["labels"].get(lab)
-                later_same_pos = sum(len(pb2) for (pos2, l2, pb2, pn2, i2) in ed.mods if pos2 == pos and i2 != i and
-                                     [m_[4] for m_ in ed.mods].index(i2) > [m_[4] for m_ in ed.mods].index(i))
+                later_same_pos = sum(len(m_[2]) for m_ in ed.mods[[x[4] for x in ed.mods].index(i) + 1:] if m_[0] == pos)
                 if off == len(pb) and later_same_pos and got == want + later_same_pos:
-                    continue        # a label at the very END of a patch followed by another insertion at the same offset: the
+                    continue        # a label at the very END of a patch followed by another insertion at the same position: the
                     #                 statement does not say on which side of the later patch it binds; both are accepted
                 if got != want:
                     pr.append(("C02/patch-label-designates-its-position-in-the-patch", "%s at %s expected %d" % (lab, got, want)))
@@ -151,7 +146,7 @@ def c03_cfg(run, v1, ed):
     pr = []
     live = set(m.byte_blocks) | set(m.proxies)
     blocks = sorted((b for b in m.code_blocks if b.section.name == ".text"), key=lambda b: (b.address, b.size))
-    proxy_delete = any(e[0] == "delproxy" for e in run["edits"])
+    proxy_ends = {run["block_bases"][t] for t in run["proxy_deleted"]}
     for idx, b in enumerate(blocks):
         insns = list(MD.disasm(bytes(b.contents), b.address))
         if sum(i.size for i in insns) != b.size:
@@ -174,7 +169,7 @@ def c03_cfg(run, v1, ed):
 
         def ft_ok():
             fts = [e for e in out if e.label.type == gtirb.EdgeType.Fallthrough]
-            if proxy_delete and b.address + b.size == run["target_offset"] + BASE:
+            if (b.address + b.size - BASE) in proxy_ends:
                 # doc/Deletion.md: with retarget_to_proxy the incoming fallthrough is redirected to the new proxy
                 return len(fts) == 1 and (isinstance(fts[0].target, gtirb.ProxyBlock) or fts[0].target is nxt)
             if nxt is not None:
@@ -285,7 +280,7 @@ def c04_annotations(run, v1, ed):
     # expressions created by patches
     same_pos_before = collections.Counter()
     created = {}
-    for (pos, l, pb, pn, i) in ed.mods:
+    for (pos, l, pb, pn, i, t) in ed.mods:
         if pn is not None:
             start = ed.out_before(pos) + same_pos_before[pos]
             if pn in ("jmpL2", "jcc", "jmplab"):
@@ -319,7 +314,6 @@ def c06_functions(run, v1, ed):
     if not v0["has_functions"]:
         return pr
     n0 = len(v0["bytes"])
-    tfunc = v0["func_of"].get(run["target_offset"])
     for p in range(n0):
         if p not in v0["func_of"]:
             continue
@@ -329,8 +323,9 @@ def c06_functions(run, v1, ed):
         if v1["func_of"].get(np_) != v0["func_of"][p]:
             pr.append(("C06/surviving-instruction-keeps-its-function", "byte %d (now %d): %s -> %s" % (p, np_, v0["func_of"][p], v1["func_of"].get(np_))))
     same_pos_before = collections.Counter()
-    for (pos, l, pb, pn, i) in ed.mods:
+    for (pos, l, pb, pn, i, t) in ed.mods:
         start = ed.out_before(pos) + same_pos_before[pos]
+        tfunc = v0["func_of"].get(run["block_bases"][t])
         for k in range(len(pb)):
             if v1["func_of"].get(start + k) != tfunc:
                 pr.append(("C06/inserted-code-belongs-to-the-function-of-its-block", "inserted byte %d in %s, block's function %s" % (start + k, v1["func_of"].get(start + k), tfunc)))
@@ -338,7 +333,7 @@ def c06_functions(run, v1, ed):
         same_pos_before[pos] += len(pb)
     # entries: a function's entry stays at the position of its first surviving byte
     for fname, ents in v0["func_entries"].items():
-        exp_e = sorted({(ed.hi(e) if e >= run["target_offset"] + run["target_size0"] else ed.lo(e)) for e in ents})
+        exp_e = sorted({ed.label_pos(e, "start", run["block_index_at"].get(e, 0)) for e in ents})
         got = v1["func_entries"].get(fname)
         whole = all(ed.deleted(p) for p in range(n0) if v0["func_of"].get(p) == fname)
         if whole:
@@ -359,7 +354,7 @@ def c08_cfi(run, v1, ed):
         return [("C08/directives-still-evaluate-cleanly", v1["cfi_error"])]
     c0, c1 = v0["cfi"], v1["cfi"]
     n0 = len(v0["bytes"])
-    nothing_deleted = all(l == 0 for (_, l, _, _, _) in ed.mods)
+    nothing_deleted = all(l == 0 for (_, l, _, _, _, _) in ed.mods)
     for p in range(n0):
         np_ = ed.newpos(p)
         if np_ is None:
@@ -384,7 +379,7 @@ def c08_cfi(run, v1, ed):
         if not (lo_ <= k1.get(d, 0) <= hi_) or (droppable and k1.get(".cfi_startproc", 0) != k1.get(".cfi_endproc", 0)):
             pr.append(("C08/procedure-structure-directives-never-dropped", "%s: %d -> %d" % (d, k0.get(d, 0), k1.get(d, 0))))
     same_pos_before = collections.Counter()
-    for (pos, l, pb, pn, i) in ed.mods:
+    for (pos, l, pb, pn, i, t) in ed.mods:
         if pn is None:
             continue
         start = ed.out_before(pos) + same_pos_before[pos]
